@@ -54,6 +54,8 @@ func (c *monC14) After(m *Machine, s *Step) *Violation {
 	}
 	cls := "own-state"
 	switch {
+	case op.Src == "absent":
+		cls = "absent-state"
 	case s.Secret == "":
 		cls = "empty-state"
 	case !stateOK && c.everValid[s.Secret]:
